@@ -96,6 +96,15 @@ func (vc *VC) define(hint, srt, term string) string {
 	return n
 }
 
+// defineConst introduces a declared constant constrained to equal term. Unlike
+// define (a macro) the name survives in quantifier patterns, which must not
+// contain ite.
+func (vc *VC) defineConst(hint, srt, term string) string {
+	n := vc.fresh(hint, srt)
+	vc.lines = append(vc.lines, "(assert (= "+n+" "+term+"))")
+	return n
+}
+
 func (vc *VC) assert(f string) {
 	if f == "true" {
 		return
